@@ -375,20 +375,31 @@ extern "C" void h_sv_assign_ssv()
    vp_assert(dense_eq(a, in.d), 3);
    vp_cover(1);
 }
-// DSVectorBase(SSVectorBase) / DSVectorBase::operator=(SSVectorBase) go through the same function
-extern "C" void h_dsv_from_ssv()
+// DSVectorBase(SSVectorBase) / DSVectorBase::operator=(SSVectorBase) go through the same function.
+// The number of entries is dispatched to a constant per instantiation: the DSVector allocates size() nonzeros, and a
+// symbolic allocation size is not tractable for the solver.
+template<int N> static void dsv_from_ssv_n(const In& in)
 {
    std::shared_ptr<Tolerances> tol = std::make_shared<Tolerances>();
    SSVectorBase<double> s(DIM, tol);
-   In in; draw(in, 0, NNZ, false);
-   for(int k = 0; k < NNZ; ++k) if(k < in.n) s.add(in.ix[k], in.va[k]);
+   for(int k = 0; k < N; ++k) s.add(in.ix[k], in.va[k]);
    DSVectorBase<double> a(s);
-   vp_assert(a.size() == in.n, 1);
+   int nz = 0;
+   for(int k = 0; k < N; ++k) if(in.va[k] != 0.0) ++nz;
+   vp_assert(a.size() == nz, 1);
    vp_assert(dense_eq(a, in.d), 2);
    DSVectorBase<double> b(4);
    b = s;
-   vp_assert(b.size() == in.n, 3);
+   vp_assert(b.size() == nz, 3);
    vp_assert(dense_eq(b, in.d), 4);
+}
+extern "C" void h_dsv_from_ssv()
+{
+   In in; draw(in, 0, NNZ, false);
+   if(in.n == 0) dsv_from_ssv_n<0>(in);
+   else if(in.n == 1) dsv_from_ssv_n<1>(in);
+   else if(in.n == 2) dsv_from_ssv_n<2>(in);
+   else dsv_from_ssv_n<3>(in);
    vp_cover(1);
 }
 
